@@ -31,6 +31,7 @@ from pathlib import Path
 from fileformats.generic import File
 
 from harness import core
+from harness.extractors.job_skeleton import extract_job_skeleton
 from harness.engines.cachehist import private_hash_cache
 from pydra.compose import python, shell
 
@@ -76,7 +77,9 @@ OBLIGATIONS = [
         "C19_memo_needed",
     )
 ]
-LEAN_TARGETS = ["PydraModel.Props.C19"]
+OBLIGATIONS.append("PydraModel.JobProto.Skel.C19_skeleton")  # decide over the regenerated Job.run / run_async skeleton
+LEAN_TARGETS = ["PydraModel.Props.C19", "PydraModel.JobProto.HashCheckSkel"]
+EXTRACTORS = [extract_job_skeleton]
 MODEL_TARGETS = ["PydraModel.JobProto.HashCheck", "PydraModel.DriverUtil"]
 
 # --------------------------------------------------------------------------------------------------------------
@@ -510,8 +513,8 @@ def correspondence(ctx):
     if any(f["id"] == "D60" for f in ctx.known()):
         ctx.finding("D60", obs["orig_changed"], f"python task, copy_mode=copy, body appends to its file argument -> {obs}")
     cases = [D60_WITNESS] + CORPUS
-    cases += [gen_case(ctx.rng, "debug") for _ in range(ctx.pick(60, 1200))]
-    cases += [gen_case(ctx.rng, "cf") for _ in range(ctx.pick(3, 60))]
+    cases += [gen_case(ctx.rng, "debug") for _ in range(ctx.pick(50, 900))]
+    cases += [gen_case(ctx.rng, "cf") for _ in range(ctx.pick(3, 40))]
     run_cases(ctx, cases)
 
 
